@@ -176,6 +176,32 @@ def _task(task, p):
     p.sample("exact", {"n": n, "w": chunk[0][1], "lambdas": [repr(l) for l in LAMBDAS], "y": [nm for nm, _ in ys]})
 
 
+def lambda_types(ctx):
+    """The same lambda handed over as Python int / NumPy integer / float32 must give the float64 result
+    (the property speaks about the number lambda, not about how the caller spells it)."""
+    m = _mod()
+    sub = "lambda_types"
+    for n, w in ((6, [1, 1, 0, 1, 1, 1]), (5, [1, 1, 1, 1, 1]), (8, [0, 1, 1, 0, 0, 1, 0, 1]), (7, [0.5, 0, 2, 1, 0, 1, 1])):
+        wf = np.array(w, dtype=np.float64)
+        for yname, y in y_vectors(n, 0)[-4:]:
+            yf = np.array(y, dtype=np.float64)
+            for lam in (1, 10, 10000, 10 ** 8):
+                ref = m.ws2d(yf, float(lam), wf)
+                for spell, val in (("int", int(lam)), ("np.int64", np.int64(lam)), ("np.int32", np.int32(lam)), ("np.float32", np.float32(lam))):
+                    ctx.count(sub, evaluations=1, nontrivial=1)
+                    try:
+                        got = m.ws2d(yf, val, wf)
+                        ok = np.allclose(got, ref, rtol=1e-6 if spell == "np.float32" else 1e-12, atol=1e-9)
+                        msg = f"-> {np.asarray(got).tolist()} instead of {ref.tolist()}"
+                    except Exception as e:
+                        ok, msg = False, f"raised {type(e).__name__}: {e}"
+                    if not ok:
+                        ctx.violation(sub, {"n": n, "w": w, "lambda": lam, "spelling": spell, "y": yname},
+                                      {"kind": "lamtype", "n": n, "w": w, "lambda": lam, "y": y},
+                                      f"ws2d(y={y}, lmda={spell}({lam}), w={w}) {msg}")
+    ctx.sample(sub, {"spellings": ["int", "np.int64", "np.int32", "np.float32"], "lambdas": [1, 10, 10000, 10 ** 8]})
+
+
 def long_family(ctx):
     """Deterministic long series against an 80-digit decimal-free exact rational banded solve."""
     sub = "float_long"
@@ -261,9 +287,13 @@ def run(ctx):
         assert a == b, "oracle self-check failed"
     ctx.note("oracle_crosscheck", "dense and banded rational solvers agree")
     long_family(ctx)
+    lambda_types(ctx)
 
 
 def replay(sub, case, p):
+    if case["kind"] == "lamtype":
+        lambda_types(p)
+        return
     w = tuple(F(x) for x in case.get("w", []))
     lamf = float(case["lambda"])
     if case["kind"] in ("exact", "float"):
